@@ -206,6 +206,23 @@ pub fn pick_block(rng: &mut Rng, r_rows: usize, m: usize) -> usize {
     }
 }
 
+/// one or two positions of the motif made flat (all regular symbols equal: the discretised row is
+/// all zeros), never the last position only
+pub fn flatten_some_rows(rng: &mut Rng, rows: &mut [Vec<f32>]) -> bool {
+    let m = rows.len();
+    if m < 3 {
+        return false;
+    }
+    for _ in 0..rng.range(1, 2) {
+        let i = rng.below(m - 1);
+        let v = *rng.pick(&[0.0f32, -0.25, 1.5]);
+        for j in 0..4 {
+            rows[i][j] = v;
+        }
+    }
+    true
+}
+
 pub fn pick_threshold(rng: &mut Rng, inp: &ScanInput, rep: &mut Report) -> f32 {
     let finite: Vec<f64> = inp.exact.iter().map(|e| e.0).filter(|x| x.is_finite()).collect();
     let mn = inp.pssm.min_score();
